@@ -43,63 +43,64 @@ def run(ctx, ck):
     f = m.func(CC)
     fl = ctx.flow(f)
     cfg = fl.cfg
-    cs = creations(f)
-    ck.floor('Pulse creations in compute_connections', len(cs), 5)
-    cids = {cfg.node_of(c) for c in cs}
-    for i, c in enumerate(cs):
-        var = c.targets[0].id
-        cid = cfg.node_of(c)
-        stops = {cfg.exit.id, cfg.raise_exit.id} | (cids - {cid})
-        region = None
-        # enclosing loop: the iteration ends at the loop header
-        p = parent(c)
-        while p is not None and p is not f.node:
-            if isinstance(p, (ast.For, ast.While)):
-                stops.add(cfg.node_of(p))
-                break
-            p = parent(p)
-        succ = [b for (b, l) in cfg.nodes[cid].succ if l != 'exc']
-        start = succ[0]
-
-        def cnt(pred):
-            if start in stops:
-                return (0, 0)
-            return cfg.count_range(start, stops, lambda n: n.stmt is not None and n.kind == 'stmt' and pred(n.stmt))
-
-        def is_n(s):
-            return isinstance(s, ast.Assign) and norm(s.targets[0]) == '%s.n' % var
-
-        def is_inc(s):
-            return isinstance(s, ast.AugAssign) and isinstance(s.op, ast.Add) and \
-                isinstance(s.target, ast.Name) and norm(s.value) == '1'
-
-        def is_app(s):
-            return isinstance(s, ast.Expr) and isinstance(s.value, ast.Call) and \
-                isinstance(s.value.func, ast.Attribute) and s.value.func.attr == 'append' and \
-                dotted(s.value.func.value) == 'self.pulses' and [norm(a) for a in s.value.args] == [var]
-        guards = if_chain_preds(cfg, cid)
-        gtxt = ' & '.join(('' if b else 'not ') + t for t, b in reversed(guards)) or 'loop over interior joints'
-        key = '%s|site[%s]' % (CC, gtxt[:80])
-        for name, pred in (('p.n=pc', is_n), ('pc+=1', is_inc), ('pulses.append(p)', is_app)):
-            r = cnt(pred)
-            ck.ob('R-PAIR.create-register', '%s|%s' % (key, name), r == (1, 1), f.loc(c),
-                  '%s after creation: min %s max %s' % (name, r[0], r[1]))
-        # the numbering statement uses the running counter
-        nst = [s for s in walk_no_nested(f.node) if is_n(s)]
-    # counter starts at 0 and p.n = <counter>
-    incs = [s for s in walk_no_nested(f.node) if isinstance(s, ast.AugAssign) and isinstance(s.op, ast.Add)
-            and isinstance(s.target, ast.Name) and norm(s.value) == '1']
-    cnames = {s.target.id for s in incs}
-    ok = len(cnames) == 1
-    cn = next(iter(cnames)) if ok else '?'
-    inits = [s for s in walk_no_nested(f.node) if isinstance(s, ast.Assign) and
-             isinstance(s.targets[0], ast.Name) and s.targets[0].id == cn]
-    ok = ok and len(inits) == 1 and norm(inits[0].value) == '0'
-    ns = [s for s in walk_no_nested(f.node) if isinstance(s, ast.Assign) and
-          isinstance(s.targets[0], ast.Attribute) and s.targets[0].attr == 'n']
-    ok = ok and all(norm(s.value) == cn for s in ns) and len(ns) >= 5
-    ck.ob('R-PAIR.create-register', CC + '|counter', ok, f.loc(), 'per-object counter %s starts at 0; %d `p.n = %s`'
-          % (cn, len(ns), cn))
+    # creation model: symbolic paths with ordered events, evaluated over all abstract end states
+    from ._creation import (creation_model, creations_of, make_env, aeval, path_feasible, actual_sequence,
+                            expected_sequence, states, Undecidable, feasible_paths, AssertionFails)
+    import re
+    f, cpaths = creation_model(ctx)
+    n_create = sum(len(creations_of(p_)) for p_ in cpaths)
+    ck.floor('Pulse creations on the symbolic paths of compute_connections', n_create, 5)
+    ck.info('symbolic_paths', len(cpaths))
+    bad_reg = {}
+    n_states = 0
+    bad_seq = []
+    bad_n = []
+    try:
+        for s0, s1, nseg in states():
+            env = make_env(s0, s1, nseg)
+            try:
+                feas = feasible_paths(cpaths, env, 'end states (%s, %s), %d segments' % (s0, s1, nseg))
+            except AssertionFails as e_:
+                bad_seq.append((s0, s1, nseg, str(e_), 'no failing assertion'))
+                n_states += 1
+                continue
+            n_states += 1
+            for p_ in feas:
+                want = expected_sequence(s0, s1, nseg)
+                got = actual_sequence(p_, env)
+                if got != want:
+                    bad_seq.append((s0, s1, nseg, got, want))
+                # every created pulse is numbered with the count of pulses created before it in this
+                # object and appended to self.pulses exactly once
+                before = 0
+                for c in creations_of(p_):
+                    ns = [ev for ev in p_.events if ev[0] == 'store' and ev[1] == c.token + '.n']
+                    ap = [ev for ev in p_.events if ev[0] == 'call' and isinstance(ev[1].func, ast.Attribute)
+                          and ev[1].func.attr == 'append' and norm(ev[1].func.value) == 'self.pulses'
+                          and [norm(a_) for a_ in ev[1].args] == [c.token]]
+                    site = '%s%s' % (c.kind, '' if c.end is None else c.end)
+                    if len(ns) != 1:
+                        bad_reg.setdefault((site, 'p.n=pc'), (len(ns), c.stmt))
+                    if len(ap) != 1:
+                        bad_reg.setdefault((site, 'pulses.append(p)'), (len(ap), c.stmt))
+                    if len(ns) == 1:
+                        v = aeval(ns[0][2], env)
+                        if v != before:
+                            bad_n.append((s0, s1, nseg, site, v, before))
+                    before += c.count(env)
+    except Undecidable as e_:
+        raise AnalysisError('%s: creation model not understood: %s' % (CC, e_))
+    for site in ('conn1', 'gnd1', 'interior', 'gnd2', 'conn2'):
+        for name in ('p.n=pc', 'pulses.append(p)'):
+            b_ = bad_reg.get((site, name))
+            ck.ob('R-PAIR.create-register', '%s|site[%s]|%s' % (CC, site, name), b_ is None,
+                  f.loc(b_[1]) if b_ else f.loc(), '%s exactly once after the creation' % name if b_ is None else
+                  '%s happens %d times after the creation of the %s pulse' % (name, b_[0], site))
+    bad_n = sorted(set(bad_n), key=str)
+    ck.ob('R-PAIR.create-register', CC + '|counter', not bad_n, f.loc(),
+          'p.n = number of pulses created before it in the object, in all %d end-state cases' % n_states if not bad_n else
+          'for end states (end1=%s, end2=%s, %d segments) the %s pulse is numbered %s but %s pulses were created '
+          'before it' % bad_n[0])
 
     # container
     pi = m.func('pulse.Pulse.__init__')
@@ -133,61 +134,22 @@ def run(ctx, ck):
     ck.ob('R-PAIR.container', 'counter-init-and-len', ok, ini.loc(), 'pulse_idx starts at 0; len() returns it')
 
     # ---------------------------------------------------------------- D2
-    kinds = {}
-    for c in cs:
-        call = c.value
-        kws = {k.arg: k.value for k in call.keywords}
-        guards = if_chain_preds(cfg, cfg.node_of(c))
-        gt = [t for t, b in guards if b]
-        inloop = None
-        p = parent(c)
-        while p is not None and p is not f.node:
-            if isinstance(p, ast.For):
-                inloop = p
-            p = parent(p)
-        if inloop is not None:
-            kinds.setdefault('interior', []).append((c, inloop))
-        elif 'gnd' in kws:
-            kinds.setdefault('gnd', []).append((c, kws['gnd'], gt))
-        elif 'sgn' in kws:
-            kinds.setdefault('conn', []).append((c, gt))
-        else:
-            kinds.setdefault('other', []).append((c,))
-    ck.ob('R-SITES.count-formula', CC + '|site-kinds', sorted((k, len(v)) for k, v in kinds.items()) ==
-          [('conn', 2), ('gnd', 2), ('interior', 1)], f.loc(),
-          'creation sites: %s' % sorted((k, len(v)) for k, v in kinds.items()))
-    for c, loop in kinds.get('interior', []):
-        it = norm(loop.iter)
-        ok = it in ('enumerate(self.segments[:-1])',)
-        args = [norm(a) for a in c.value.args]
-        # Pulse(container, point, end1, end2, seg1, seg2)
-        tg = loop.target
-        seg = tg.elts[1].id if isinstance(tg, ast.Tuple) and len(tg.elts) == 2 else '?'
-        idx = tg.elts[0].id if isinstance(tg, ast.Tuple) else '?'
-        nxt = [s for s in loop.body if isinstance(s, ast.Assign) and norm(s.value) == 'self.segments[%s + 1]' % idx]
-        ok = ok and len(nxt) == 1
-        if ok:
-            nn = nxt[0].targets[0].id
-            ok = args[1:] == ['%s.p2' % seg, '%s.p1' % seg, '%s.p2' % nn, seg, nn]
-        mn, mx = loop_reaches_on_all_paths(fl, loop, lambda n: n.stmt is c)
-        ck.ob('R-SITES.count-formula', CC + '|interior', ok and (mn, mx) == (1, 1), f.loc(c),
-              'one pulse per interior joint, at the point shared by consecutive segments: Pulse(%s)' % ', '.join(args))
-    for c, g, gt in kinds.get('gnd', []):
-        K = g.value if isinstance(g, ast.Constant) else None
-        ok = K in (0, 1) and any(t == 'self.is_ground[%d]' % K for t in gt)
-        ck.ob('R-SITES.count-formula', CC + '|grounded-end|%s' % K, ok, f.loc(c),
-              'Pulse(gnd=%s) under guard %s' % (K, gt))
-    seenK = set()
-    for c, gt in kinds.get('conn', []):
-        K = None
-        for t in gt:
-            for k in (1, 2):
-                if t.startswith('self.idx_%d != 0' % k):
-                    K = k
-        ok = K is not None and K not in seenK
-        seenK.add(K)
-        ck.ob('R-SITES.count-formula', CC + '|connected-end|%s' % K, ok, f.loc(c),
-              'Pulse(sgn=...) under guard %s' % gt)
+    bs = sorted(set((x[0], x[1], x[2], str(x[3]), str(x[4])) for x in bad_seq), key=str)
+    ck.ob('R-SITES.count-formula', CC + '|site-kinds', not bs, f.loc(),
+          'in all %d end-state cases the pulses created are: one for a grounded or joined end 1, one per interior '
+          'joint, one for a grounded or joined end 2 (a ring closes at end 2)' % n_states if not bs else
+          'for end states (end1=%s, end2=%s, %d segments) the pulses created are %s, the topology calls for %s '
+          '(%d cases differ)' % (bs[0] + (len(bs),)))
+    # interior pulse: at the point shared by consecutive segments
+    forms = set()
+    for p_ in cpaths:
+        for c in creations_of(p_):
+            if c.interior:
+                forms.add(tuple(re.sub(r'_k\d+', '_k', a_) for a_ in c.args[1:6]))
+    S, T = 'self.segments[_k]', 'self.segments[_k + 1]'
+    ok = forms == {('%s.p2' % S, '%s.p1' % S, '%s.p2' % T, S, T)}
+    ck.ob('R-SITES.count-formula', CC + '|interior', ok, f.loc(),
+          'one pulse per interior joint, at the point shared by consecutive segments: Pulse(%s)' % sorted(forms)[:1])
 
     # ---------------------------------------------------------------- D3
     sites = []
